@@ -83,6 +83,22 @@ var c20Families = []family{
 	{name: "authority a@", prefix: "http://", frag: "a@", suffix: "h/"},
 	{name: "authority a:b@", prefix: "http://", frag: "a:b@", suffix: "h/"},
 	{name: "ref /x/.. vs long base", prefix: "", frag: "x/../", base: "LONG"},
+	// two long components at once ({S} = n/2 repetitions of 'a'): work that is |A| x |B|
+	{name: "long scheme + path", prefix: "{S}://h", frag: "/a"},
+	{name: "long scheme + long segment", prefix: "{S}://h/", frag: "a"},
+	{name: "long scheme + query", prefix: "{S}://h/?", frag: "a"},
+	{name: "long scheme + fragment", prefix: "{S}://h/#", frag: "a"},
+	{name: "long scheme + opaque path", prefix: "{S}:", frag: "x"},
+	{name: "long scheme + host", prefix: "{S}://", frag: "h", suffix: "/"},
+	{name: "long username + path", prefix: "http://{S}@h", frag: "/a"},
+	{name: "long host + path", prefix: "http://{S}", frag: "/a"},
+	{name: "long host + query", prefix: "http://{S}/?", frag: "a=b&", sp: true},
+	{name: "long path + query", prefix: "http://h/{S}?", frag: "a"},
+	{name: "long path + fragment", prefix: "http://h/{S}#", frag: "a"},
+	{name: "long query + fragment", prefix: "http://h/?{S}#", frag: "a"},
+	{name: "long scheme ref vs long base", prefix: "x", frag: "/a", base: "LONGSCHEME"},
+	{name: "tabs between text", prefix: "http://h/", frag: "abcdefg\n"},
+	{name: "tabs in host", prefix: "http://", frag: "a\t", suffix: "/"},
 	{name: "path /.", prefix: "http://h", frag: "/."},
 	{name: "path /%2e", prefix: "http://h", frag: "/%2e"},
 	{name: "path long segment", prefix: "http://h/", frag: "a"},
@@ -117,7 +133,12 @@ var c20Families = []family{
 
 func (f family) build(n int) (input, base string) {
 	prefix := strings.Replace(f.prefix, "/DEEP", strings.Repeat("/d", n/4), 1)
-	input = prefix + strings.Repeat(f.frag, n/max(1, len(f.frag))) + f.suffix
+	reps := n / max(1, len(f.frag))
+	if strings.Contains(prefix, "{S}") {
+		prefix = strings.Replace(prefix, "{S}", strings.Repeat("a", n/2), 1)
+		reps /= 2
+	}
+	input = prefix + strings.Repeat(f.frag, reps) + f.suffix
 	if f.name == "query distinct names" {
 		var sb strings.Builder
 		sb.WriteString(f.prefix)
@@ -129,6 +150,8 @@ func (f family) build(n int) (input, base string) {
 	switch f.base {
 	case "LONG":
 		base = "http://h" + strings.Repeat("/a", n/2) + "?q#f"
+	case "LONGSCHEME":
+		base = strings.Repeat("a", n/2) + "://h/b/c?q#f"
 	case "LONGFILE":
 		base = "file:///C:" + strings.Repeat("/a", n/2)
 	default:
